@@ -125,6 +125,7 @@ def run(prog, rep, tier='quick'):
     rep.rule('domain-guard', 'max(abs(k)) >= 1 -> raise present in rc2lar / rc2is')
     rep.rule('covariance', 'modulation-charge typing + scaling exponents of levup, levdown, rc2poly, ac2poly, ac2rc')
     rep.rule('wiring', 'call chain / result indices')
+    rep.rule('lsf-order', 'lsf2poly / poly2lsf never sort complex values (the alternation of zeros between P and Q follows the frequencies)')
     rep.rule('lsf-siblings', 'factor attached to P and Q agrees between lsf2poly (convolve) and poly2lsf (deconvolve), per parity')
     # ---------------- closed forms
     n_cf = 0
@@ -239,6 +240,8 @@ def run(prog, rep, tier='quick'):
         v, itp = C.run_function(prog, 'linear_prediction', fname, [r], {}, itp=itp)
         calls = itp.watch[levq]
         n_w += 1
+        if blocked1(rep, 'wiring', f.qname, fname, itp):
+            continue            # an operation the analysis does not know sits on the way: undecided, not a finding
         ok = len(calls) == 1 and isinstance(calls[0]['params'].get('r'), Num) and calls[0]['params']['r'].uid == r.uid
         if ok and isinstance(v, Tup):
             ret = calls[0]['ret']
@@ -309,6 +312,27 @@ def run(prog, rep, tier='quick'):
         ln = Aff(1 if odd else 0, {'j': F(2)}) + (1 if fname == 'poly2lsf' else 0)
         v_, itp_ = C.run_function(prog, 'linear_prediction', fname, [Num(zero_deg(), (ln,), False, taint=frozenset(['arg']))], {})
         return sorted(e[3] for e in itp_.events if e[0] == kind and e[4] == 'linear_prediction.' + fname and e[3] is not None)
+    # the zeros on the unit circle are dealt alternately to P and Q in the order of the frequencies: a sort of the *complex* zeros
+    # orders them by real part, i.e. by decreasing angle on the upper half circle
+    n_sort = 0
+    for fname_ in ('lsf2poly', 'poly2lsf'):
+        for odd in (True, False):
+            Aff.SYM_MIN['j'] = 2
+            ln_ = Aff(1 if odd else 0, {'j': F(2)}) + (1 if fname_ == 'poly2lsf' else 0)
+            fx = prog.func('linear_prediction', fname_)
+            v_, itp_ = C.run_function(prog, 'linear_prediction', fname_, [Num(zero_deg(), (ln_,), False, taint=frozenset(['arg']))], {})
+            n_sort += 1
+            cs = [e for e in itp_.events if e[0] == 'complex-sort' and e[2].startswith('linear_prediction.')]
+            key = ('complex-sort', fname_)
+            if cs and key not in seen:
+                seen.add(key)
+                rep.violation('lsf-order', fx.qname, normalise(cs[0][1])[:60], 'complex values are sorted: numpy orders them by real part '
+                              '(decreasing angle on the upper half of the unit circle), so the zeros reach P and Q in the reverse order '
+                              'of the line spectral frequencies -- for even orders the two root sets are exchanged',
+                              loc(fx.mod, cs[0][1]))
+            elif not cs and (key + ('ok',)) not in seen:
+                seen.add(key + ('ok',))
+                rep.proved('lsf-order', fx.qname, 'ordering of the unit-circle zeros', 'no sort of complex values', loc(fx.mod, fx.node))
     n_l = 0
     if not a1 or not a2 or set(a1) != set(a2):
         # the factors are not written as literal arguments inside an `if p % 2` (or only on one side): compare the factors
